@@ -155,7 +155,7 @@ CHECKS = {
         engine="tlc"),
     "C16": dict(
         category="model_checking",
-        text="(a) spec/Helpers.tla holds the slice model of 34 helpers; TLC enumerates every input sequence over {-2,0,1,3} up to "
+        text="(a) spec/Helpers.tla holds the slice model of 35 stream helpers (and Gcd, Lcm, CommonPeriod, checked against their defining properties); TLC enumerates every input sequence over {-2,0,1,3} up to "
              "length 4-5 (pairs up to 2-3, triples up to 1-2) x every parameter 0..3/4 and emits each case with the expected outputs and "
              "the capacity rule of the returned channel; every case (30k quick / more thorough) is run on the real helper with input "
              "capacities 0 and 2 in a child process (hangs -> Go deadlock detector). (b) For 21 primitive stages and composites x "
